@@ -135,8 +135,13 @@ func BuildFarm(w *World, o FarmOpts) *Farm {
 	f.LockRaw = txgen.EthLockRaw(f.E, f.ethNonce(), &sim.LockRedeemContract, big.NewInt(1000000))
 	run(
 		txgen.Delegate(A, A.Addr, txgen.Amt("OLT", olt(100)), fee, memo()),
-		txgen.DomainCreate(A, A.Addr, A.Addr, "alice.ol", "http://a.b", txgen.Amt("OLT", olt(1001)), fee, memo()),
-		txgen.DomainCreate(A, A.Addr, A.Addr, "shop.ol", "http://s.h", txgen.Amt("OLT", olt(1001)), fee, memo()),
+		// one domain per domain kind, so that really executing one subject leaves the others applicable
+		txgen.DomainCreate(A, A.Addr, A.Addr, "alice.ol", "http://a.b", txgen.Amt("OLT", olt(1001)), fee, memo()), // parent of sub.alice.ol
+		txgen.DomainCreate(A, A.Addr, A.Addr, "shop.ol", "http://s.h", txgen.Amt("OLT", olt(1001)), fee, memo()),  // put on sale (purchase)
+		txgen.DomainCreate(A, A.Addr, A.Addr, "upd.ol", "http://u.p", txgen.Amt("OLT", olt(1001)), fee, memo()),
+		txgen.DomainCreate(A, A.Addr, A.Addr, "sell.ol", "http://s.e", txgen.Amt("OLT", olt(1001)), fee, memo()),
+		txgen.DomainCreate(A, A.Addr, A.Addr, "send.ol", "http://s.n", txgen.Amt("OLT", olt(1001)), fee, memo()),
+		txgen.DomainCreate(A, A.Addr, A.Addr, "renew.ol", "http://r.n", txgen.Amt("OLT", olt(1001)), fee, memo()),
 		txgen.Unstake(v[0].Key.Addr, v[0].Stake.Addr, txgen.Amt("OLT", big.NewInt(10)), fee, memo(), v[0].Stake, v[0].Key),
 		mkProp("fund"), mkProp("cancel"), mkProp("vote"), mkProp("withdraw"), mkProp("finalize"), mkProp("expire"),
 		txgen.EthLock(A, A.Addr, f.LockRaw, fee, memo()),
@@ -222,15 +227,15 @@ func (f *Farm) Make(kind string) (txgen.Tx, error) {
 	case "DOMAIN_CREATE":
 		return txgen.DomainCreate(A, A.Addr, A.Addr, fmt.Sprintf("fresh%d.ol", f.n), "http://a.b", txgen.Amt("OLT", olt(1001)), fee, memo), nil
 	case "DOMAIN_UPDATE":
-		return txgen.DomainUpdate(A, A.Addr, B.Addr, "alice.ol", true, "http://c.d", fee, memo), nil
+		return txgen.DomainUpdate(A, A.Addr, B.Addr, "upd.ol", true, "http://c.d", fee, memo), nil
 	case "DOMAIN_SELL":
-		return txgen.DomainSale(A, A.Addr, "alice.ol", txgen.Amt("OLT", olt(10+k)), false, fee, memo), nil
+		return txgen.DomainSale(A, A.Addr, "sell.ol", txgen.Amt("OLT", olt(10+k)), false, fee, memo), nil
 	case "DOMAIN_PURCHASE":
 		return txgen.DomainPurchase(B, B.Addr, B.Addr, "shop.ol", txgen.Amt("OLT", olt(11+k)), fee, memo), nil
 	case "DOMAIN_SEND":
-		return txgen.DomainSend(B, B.Addr, "alice.ol", txgen.Amt("OLT", olt(1+k)), fee, memo), nil
+		return txgen.DomainSend(B, B.Addr, "send.ol", txgen.Amt("OLT", olt(1+k)), fee, memo), nil
 	case "DOMAIN_RENEW":
-		return txgen.DomainRenew(A, A.Addr, "alice.ol", txgen.Amt("OLT", olt(1+k)), fee, memo), nil
+		return txgen.DomainRenew(A, A.Addr, "renew.ol", txgen.Amt("OLT", olt(1+k)), fee, memo), nil
 	case "DOMAIN_DELETE_SUB":
 		return txgen.DomainDeleteSub(A, A.Addr, "sub.alice.ol", fee, memo), nil
 	case "PROPOSAL_CREATE":
